@@ -218,12 +218,14 @@ def gen_gene(rng, idx, lo, hi, seqname, p=None):
     txs = uniq
     any_coding = any(t["cds_starts"] is not None for t in txs)
     gene_type = (BIOTYPES_CODING[0] if any_coding else rng.choice(BIOTYPES_NONCODING))
-    bt = p.get("biotypes", "same")               # same | none | differ
+    bt = p.get("biotypes", "same")               # same | none | differ | mix (differ, some transcripts None)
     for t in txs:
         if bt == "same":
             t["transcript_type"] = gene_type
         elif bt == "none":
             t["transcript_type"] = None
+        elif bt == "mix" and rng.random() < 0.4:
+            t["transcript_type"] = None                 # falls back to the gene's biotype on re-parse
         else:
             t["transcript_type"] = (BIOTYPES_CODING[0] if t["cds_starts"] is not None
                                     else rng.choice(BIOTYPES_NONCODING))
@@ -269,7 +271,7 @@ def gen_collection(rng, p=None):
       genome_len (120)  n_genes (1..3 when None)  n_feature_collections (0)  max_tx (3)  max_exons (4)
       p_coding (0.6)  p_adjacent (0.3)  frame_offsets (True)  p_frameshift (0.1)
       qualifiers  none|plain|adv|advkey      exclude_values  letters removed from generated values/identifiers
-      identifiers full|sparse|adv            biotypes  same|none|differ      key_pool  list of extra keys
+      identifiers full|sparse|adv            biotypes  same|none|differ|mix     key_pool  list of extra keys
       seqname ("chr1")  overlap_genes (True: gene ranges drawn independently, may overlap)
     """
     p = dict(p or {})
